@@ -1,5 +1,6 @@
 """Check engine: fact extraction with a content-hash cache, obligations, verdicts,
 known findings, evidence and replay files."""
+from . import panics as _panics
 import fcntl
 import hashlib
 import json
@@ -245,7 +246,7 @@ def finish(ctx, level, explanation, min_obligations=1):
         "tree_hash": ctx.meta.get("hash"),
         "facts_cache_hit": ctx.meta.get("cache_hit"),
         "files_hashed": ctx.meta.get("files_hashed"),
-        "notes": ctx.notes,
+        "notes": ctx.notes + (["debug-only assertion sites (debug_assert*!: absent from release builds; not counted as abort sites, assumption: the stated invariant holds): " + "; ".join(sorted(_panics.DEBUG_ONLY))] if _panics.DEBUG_ONLY else []),
         "all_obligations": [{"rule": o["rule"], "where": o["where"], "what": o["what"], "ok": o["ok"]} for o in ctx.obligations][:400],
         "exhaustive": True,
     }
